@@ -409,7 +409,15 @@ F.run_tape = _run_tape_wrapper
 
 
 def impl_run_script(script, cache_vals, cfg):
-    """run_script on the implementation; returns the canonical outcome line"""
+    """run_script on the implementation; returns the canonical outcome line.  A watchdog timeout is confirmed by a second
+    run with four times the budget before it is reported (a spurious timeout was once seen in a heavily loaded thorough run)"""
+    r = _impl_run_script(script, cache_vals, cfg, None)
+    if r == 'timeout':
+        r = _impl_run_script(script, cache_vals, cfg, 4 * Watch().seconds)
+    return r
+
+
+def _impl_run_script(script, cache_vals, cfg, seconds):
     cache_vals = copy.deepcopy(cache_vals)      # the caller's dictionary (also handed to the model) stays pristine
     log = Log()
     Pins.ridx = 0
@@ -419,7 +427,7 @@ def impl_run_script(script, cache_vals, cfg):
     _Capture.log = log
     _Capture.recursion = False
     out = None
-    with GlobalFlags(cfg), Watch():
+    with GlobalFlags(cfg), (Watch(seconds) if seconds else Watch()):
         try:
             F.run_script(script, cache_vals, cfg.contract_objs(log), cfg.flags, cfg.plugins(log),
                          cfg.max_items, cfg.max_item_size, cfg.limit)
@@ -442,6 +450,13 @@ def impl_run_script(script, cache_vals, cfg):
 
 
 def impl_run_auth(scripts, cache_vals, cfg):
+    r = _impl_run_auth(scripts, cache_vals, cfg, None)
+    if r == 'timeout':
+        r = _impl_run_auth(scripts, cache_vals, cfg, 4 * Watch().seconds)
+    return r
+
+
+def _impl_run_auth(scripts, cache_vals, cfg, seconds):
     cache_vals = copy.deepcopy(cache_vals)
     log = Log()
     Pins.ridx = 0
@@ -451,7 +466,7 @@ def impl_run_auth(scripts, cache_vals, cfg):
     _Capture.log = log
     _Capture.recursion = False
     v = None
-    with GlobalFlags(cfg), Watch():
+    with GlobalFlags(cfg), (Watch(seconds) if seconds else Watch()):
         v = F.run_auth_scripts(list(scripts), cache_vals, cfg.contract_objs(log), cfg.plugins(log),
                                cfg.max_items, cfg.max_item_size, cfg.limit)
     if Watch.fired or v is None:
@@ -629,7 +644,13 @@ def compare_script(model, script, cache_vals, cfg, fuel=20000):
     """returns (status, impl_line, model_line); status in agree/differ/skip-*"""
     i = impl_run_script(script, cache_vals, cfg)
     if i == 'timeout':
-        return 'differ', 'timeout: the implementation did not finish within the per-case watchdog', ''
+        # exponentially branching recursion (a definition calling itself twice) terminates in principle but not in practice:
+        # if the formal semantics also exhausts its step budget the two agree that the run is long; if the semantics ends
+        # quickly, the implementation hangs where it should not
+        m = model.run_script(script, cache_vals, cfg, fuel)
+        if m == 'fuel' or m.startswith('unmod:'):
+            return 'skip-long-run', 'timeout', m
+        return 'differ', 'timeout: the implementation did not finish within the per-case watchdog', m
     if i == 'recursion':
         return 'skip-recursion', i, ''
     m = model.run_script(script, cache_vals, cfg, fuel)
@@ -648,7 +669,10 @@ def compare_auth(model, scripts, cache_vals, cfg, fuel=20000):
     except RecursionError:
         return 'skip-recursion', '', ''
     if i == 'timeout':
-        return 'differ', 'timeout: the implementation did not finish within the per-case watchdog', ''
+        m = model.run_auth(scripts, cache_vals, cfg, fuel)
+        if m == 'fuel' or m.startswith('unmod:'):
+            return 'skip-long-run', 'timeout', m
+        return 'differ', 'timeout: the implementation did not finish within the per-case watchdog', m
     if i == 'recursion':
         return 'skip-recursion', i, ''
     m = model.run_auth(scripts, cache_vals, cfg, fuel)
